@@ -24,8 +24,8 @@ def observe(vec):
     from cutplace import errors, rowio
     text = text_of(vec["input"])
     fields = [("f%d" % i, width) for i, width in enumerate(vec["widths"], 1)]
-    def reader():
-        return rowio.fixed_rows(io.StringIO(text, newline=""), "utf-8", fields, DELIM[vec["delim"]])
+    def reader(layout=None):
+        return rowio.fixed_rows(io.StringIO(text, newline=""), "utf-8", layout or fields, DELIM[vec["delim"]])
 
     try:
         rows = list(reader())
@@ -43,11 +43,24 @@ def observe(vec):
                 return {"status": "ok", "rows": lockstep, "note": "read after another reader was abandoned following its "
                                                                   "first row, and in lockstep with a second reader"}
             del abandoned
-        return {"status": "ok", "rows": rows}
+        result = {"status": "ok", "rows": rows}
     except errors.DataFormatError as error:
-        return {"status": "err", "error": str(error)}
+        result = {"status": "err", "error": str(error)}
     except Exception as error:  # noqa
-        return {"status": "crash", "error": "%s: %s" % (type(error).__name__, error)}
+        result = {"status": "crash", "error": "%s: %s" % (type(error).__name__, error)}
+    # the names of the fields are labels for messages: a layout with several columns of the same name ("filler") is the
+    # same layout and must be read the same way, well-formed or not
+    if len(fields) >= 2 and result["status"] != "crash":
+        try:
+            same_names = {"status": "ok", "rows": list(reader([("filler", width) for _, width in fields]))}
+        except errors.DataFormatError as error:
+            same_names = {"status": "err", "error": str(error)}
+        except Exception as error:  # noqa
+            same_names = {"status": "crash", "error": "%s: %s" % (type(error).__name__, error)}
+        if (same_names["status"], same_names.get("rows")) != (result["status"], result.get("rows")):
+            same_names["note"] = "layout whose fields all have the same name"
+            return same_names
+    return result
 
 
 def problems_of(vec, observed):
@@ -58,7 +71,8 @@ def problems_of(vec, observed):
         return ["%s: neither rows nor a data-format error: %s" % (what, observed["error"])]
     if expected[0] == "err":
         if observed["status"] != "err":
-            return ["%s: malformed input was silently read as %s" % (what, observed["rows"])]
+            return ["%s%s: malformed input was silently read as %s" % (what, " (%s)" % observed["note"] if "note" in observed else "",
+                                                                       observed["rows"])]
         return []
     want = [[text_of(item) for item in row] for row in expected[1]]
     if observed["status"] == "err":
